@@ -1,6 +1,6 @@
 //! FullMerkleTree<Toy> — C06 / C07 / C08 / C15 harnesses.
 //! Unit: regenerated copy of utils/src/merkle_tree/full_merkle_tree.rs (bodies byte-identical).
-use crate::gen::full_merkle_tree::FullMerkleTree;
+use crate::gen::full_merkle_tree::{FullMerkleBranch, FullMerkleProof, FullMerkleTree};
 use crate::toy::Toy;
 use crate::tree_body::*;
 use crate::vlib::*;
@@ -69,6 +69,12 @@ impl Build for T {
     }
 }
 
+impl MkProof for FullMerkleProof<Toy> {
+    fn mk(siblings: &[u64], bits: &[u8]) -> Self {
+        let mut v = Vec::with_capacity(bits.len()); let mut i = 0; while i < bits.len() { v.push(if bits[i] == 0 { FullMerkleBranch::Left(siblings[i]) } else { FullMerkleBranch::Right(siblings[i]) }); i += 1; } FullMerkleProof(v)
+    }
+}
+
 #[cfg(kani)]
 mod proofs {
     use super::*;
@@ -109,6 +115,20 @@ mod proofs {
     stepk!(full_d2_c15_override_inrange, 2, OverrideInRange, OBS_C15, false, 10);
     // C07: proofs in an arbitrary state
     obsk!(full_d2_c07_proofs, 2, OBS_C07, 10);
+    // C07 on arbitrary proof objects: path length fixed per harness (3, 10, 20 levels), siblings and bits symbolic
+    macro_rules! pobj {
+        ($name:ident, $len:expr, $unwind:expr) => {
+            #[kani::proof]
+            #[kani::unwind($unwind)]
+            fn $name() {
+                body_proof_object::<FullMerkleProof<Toy>, _>(&mut KaniSrc, $len, 255);
+                kani::cover!(true, "reached-end");
+            }
+        };
+    }
+    pobj!(full_c07_proof_object_3, 3, 6);
+    pobj!(full_c07_proof_object_10, 10, 12);
+    pobj!(full_c07_proof_object_20, 20, 22);
     // ---- depth 1 ----
     stepk!(full_d1_step_set, 1, Set, OBS_C06, true, 8);
     stepk!(full_d1_step_delete, 1, Delete, OBS_C06, true, 8);
@@ -121,6 +141,10 @@ mod proofs {
     stepk!(full_d1_override_witness_rembefore, 1, OverrideRemBefore, OBS_C08, false, 8);
     stepk!(full_d1_override_witness_beyondcap, 1, OverrideBeyondCap, OBS_C08, false, 8);
     stepk!(full_d1_c15_override_inrange, 1, OverrideInRange, OBS_C15, false, 8);
+    stepk!(full_d1_c15_append, 1, Append, OBS_C15, false, 8);
+    stepk!(full_d1_c15_set, 1, Set, OBS_C15, false, 8);
+    stepk!(full_d1_c15_delete, 1, Delete, OBS_C15, false, 8);
+    stepk!(full_d1_c15_setrange, 1, SetRange, OBS_C15, false, 8);
     obsk!(full_d1_c07_proofs, 1, OBS_C07, 8);
     // ---- depth 3 (thorough) ----
     stepk!(full_d3_step_set, 3, Set, OBS_C06, false, 18);
